@@ -4,7 +4,9 @@ import (
 	"bytes"
 	"encoding/json"
 	"fmt"
+	"math"
 	"reflect"
+	"strconv"
 	"strings"
 	"testing"
 	"unicode/utf8"
@@ -65,6 +67,8 @@ func c12Exempt(e *expr.Expression) (bool, string) {
 	return why != "", why
 }
 
+func fmtNum(f float64) string { return strconv.FormatFloat(f, 'g', -1, 64) }
+
 type renderOut struct {
 	SQL, Err   string
 	PSQL, PErr string
@@ -84,7 +88,24 @@ func renderBoth(e *expr.Expression) (o renderOut, panicked any) {
 	if perr != nil {
 		o.PErr = "error"
 	}
-	o.Params = fmt.Sprintf("%v", pp)
+	// parameters are compared by value: a whole number may be an int on one side and
+	// a float64 on the other (the property's own exemption), 5 and 5.0 are the same value
+	var ps2 []string
+	for _, p := range pp {
+		switch v := p.(type) {
+		case int:
+			ps2 = append(ps2, fmtNum(float64(v))+fmt.Sprintf("|%d", v))
+		case float64:
+			if v == math.Trunc(v) && math.Abs(v) < 1<<62 {
+				ps2 = append(ps2, fmtNum(v)+fmt.Sprintf("|%d", int64(v)))
+			} else {
+				ps2 = append(ps2, fmtNum(v))
+			}
+		default:
+			ps2 = append(ps2, fmt.Sprintf("%T:%v", p, p))
+		}
+	}
+	o.Params = strings.Join(ps2, " ; ")
 	return
 }
 
@@ -128,7 +149,22 @@ func checkC12(c InCase) (f *report.Failure, nontrivial bool, cls string) {
 	}
 	stage = "String"
 	if s1, s2 := e.String(), d.String(); s1 != s2 {
-		return report.Failf("string", "String() differs for %s: original %q decoded %q", c.Quoted, s1, s2), false, ""
+		at := 0
+		for at < len(s1) && at < len(s2) && s1[at] == s2[at] {
+			at++
+		}
+		lo := at - 40
+		if lo < 0 {
+			lo = 0
+		}
+		w := func(s string) string {
+			hi := at + 40
+			if hi > len(s) {
+				hi = len(s)
+			}
+			return s[lo:hi]
+		}
+		return report.Failf("string", "String() differs for %s at byte %d: original ...%q... decoded ...%q... (json %.300s)", c.Quoted, at, w(s1), w(s2), b), false, ""
 	}
 	stage = "Render"
 	r1, p1 := renderBoth(e)
@@ -138,7 +174,28 @@ func checkC12(c InCase) (f *report.Failure, nontrivial bool, cls string) {
 			return report.Failf("render-panic", "rendering panics differently for %s: original %v decoded %v", c.Quoted, p1, p2), false, ""
 		}
 	} else if r1 != r2 {
-		return report.Failf("render", "rendered SQL differs for %s (json %s):\n  original %+v\n  decoded  %+v", c.Quoted, b, r1, r2), false, ""
+		diff := func(what, a, z string) string {
+			if a == z {
+				return ""
+			}
+			at := 0
+			for at < len(a) && at < len(z) && a[at] == z[at] {
+				at++
+			}
+			lo := at - 30
+			if lo < 0 {
+				lo = 0
+			}
+			w := func(s string) string {
+				hi := at + 50
+				if hi > len(s) {
+					hi = len(s)
+				}
+				return s[lo:hi]
+			}
+			return fmt.Sprintf(" %s differs at byte %d: original ...%q... decoded ...%q...;", what, at, w(a), w(z))
+		}
+		return report.Failf("render", "rendering differs for %s:%s%s%s%s%s (json %.200s)", c.Quoted, diff("inline SQL", r1.SQL, r2.SQL), diff("inline error", r1.Err, r2.Err), diff("parameterized SQL", r1.PSQL, r2.PSQL), diff("parameters", r1.Params, r2.Params), diff("parameterized error", r1.PErr, r2.PErr), b), false, ""
 	}
 	exempt, why := c12Exempt(e)
 	if !reflect.DeepEqual(e, &d) {
